@@ -21,6 +21,8 @@ _world = None
 
 def _init():
     global _world
+    if _world is not None:          # built by the parent before the pool was forked
+        return
     from . import verify
     _world = verify.build_world()
 
@@ -103,6 +105,15 @@ def run_property(prop_id, tier='quick', seed=0, jobs=None):
     ctx = mp.get_context('fork')
     if tier == 'thorough':
         os.environ['PYVC_SECOND_OPINION'] = '1'
+    # The verification world (specs, contracts, vocabulary read from /repo) is built once here and inherited by the forked workers.  If it
+    # cannot be built - e.g. a change in /repo removed a name a sidecar file imports - that is reported once as an engine error instead of
+    # every worker dying in its initializer (which made the pool respawn them forever).
+    try:
+        world()
+    except Exception as ex:
+        print(f'ENGINE-ERROR property={prop_id} the verification world cannot be built from the current tree: {type(ex).__name__}: {ex}')
+        print(f'{prop_id} {tier}: nothing decided')
+        return 3
     with ctx.Pool(jobs, initializer=_init) as pool:
         # 1. function contracts
         from props import _common as _pc
